@@ -125,7 +125,7 @@ def run(ctx, verdict, replay=None, model_ok=True):
         batch.add({"pkg": job["pkg"], "root": "Root", "defs": []}, job["fmt"], veneers=job["veneers"], text=job["schema_text"])
         replay_jobs.append(job)
     else:
-        n = 150 if thorough else 30
+        n = 100 if thorough else 45
         k = 0
         for fmt in srcgen.FORMATS:
             for _ in range(n):
@@ -412,7 +412,11 @@ def judge(sm, ir, defaults, fail):
             # a nested builder of the emitted expression failed and the error was dropped (C09's finding): the
             # option that received it was silently skipped
             cause = "emitted-nested-builder-fails-and-its-error-is-dropped"
-        elif path and ftype is not None and ir.has_builder(ftype) and any(o["Name"] in called for o in mine):
+        elif path and ftype is not None and any(
+                o["Name"] in called and all((len(a["Path"]) == 1 or a["Method"] in ("index", "append"))
+                                            and (a["Value"].get("Argument") or {}).get("Type") is not None
+                                            and ir.has_builder(a["Value"]["Argument"]["Type"]) for a in o.get("Assignments") or [])
+                for o in mine):
             continue          # the difference sits inside a nested object that has its own builder and converter:
                               # judged on that builder's own sample values
         if cause in ("value-lost", "value-changed") and not any(o["Name"] in called for o in mine) \
